@@ -37,6 +37,8 @@ KINDS = {
     "int": {"mk": lambda cc, **kw: cc.IntField(min=0, max=9, **kw), "valid": ("5", 5), "falsy": ("0", 0), "invalid": "50", "decoy": "7", "file": 3, "file2": 4, "assign": 8, "default": 1},
     "bool": {"mk": lambda cc, **kw: cc.BoolField(**kw), "valid": ("yes", True), "invalid": "maybe", "decoy": "on", "file": False, "file2": False, "assign": False, "default": False},
     "bool-t": {"mk": lambda cc, **kw: cc.BoolField(**kw), "valid": ("on", True), "falsy": ("no", False), "invalid": "maybe", "decoy": "yes", "file": True, "file2": True, "assign": True, "default": True},
+    "lookup": {"mk": lambda cc, **kw: cc.StringField(validator=lambda cfg, v: {"alpha": "alpha", "beta": "beta", "gamma": "gamma", "delta": "delta"}[v], **kw),
+               "valid": ("beta", "beta"), "invalid": "zeta", "decoy": "gamma", "file": "alpha", "file2": "delta", "assign": "delta", "default": "alpha"},
     "float": {"mk": lambda cc, **kw: cc.FloatField(**kw), "valid": ("2.5", 2.5), "falsy": ("0.0", 0.0), "invalid": "x", "decoy": "7.5", "file": 3.5, "file2": 4.5, "assign": 8.5, "default": 1.5},
 }
 CONTAINER_KINDS = {
